@@ -4,7 +4,7 @@
    so that it is compiled and audited with the rest. *)
 From Coq Require Import ZArith NArith Bool List.
 From SV Require Import Common.GoInt C13.Base C13.Index C13.Str C13.Seq C13.Spec.
-From SV Require Import C13.ProofsIndex C13.ProofsSlice C13.ProofsSeq C13.ProofsStr C13.ProofsStr2 C13.ProofsStr3 C13.ProofsRange.
+From SV Require Import C13.ProofsIndex C13.ProofsSlice C13.ProofsSeq C13.ProofsStr C13.ProofsStr2 C13.ProofsStr3 C13.ProofsRange C13.ProofsSort.
 From SV Require C13.History.
 Import ListNotations.
 Open Scope Z_scope.
@@ -90,6 +90,38 @@ Theorem builtins_correct :
   forall f args, builtin f args = of_spec (spec_builtin (bspec f) args).
 Proof. exact builtins_correct_lemma. Qed.
 
+(* sorted(x, key=, reverse=): with the keys k_0..k_(n-1) already computed and
+   the elements named by their positions, the implementation (a stable sort
+   under Less, or under the flipped Less for reverse=True) returns THE list that
+   the specification describes -- all positions, ordered by key (descending
+   when reversed), ties in input order in both directions: the output
+   satisfies the relation sorted_ok, and sorted_ok has no other solution. *)
+Theorem sorted_correct :
+  forall reverse keys out,
+    sorted_ok reverse keys out = true <-> out = sorted_impl reverse keys.
+Proof.
+  intros reverse keys out. split.
+  - exact (sorted_unique_lemma reverse keys out).
+  - intros ->. exact (sorted_sound_lemma reverse keys).
+Qed.
+
+(* min / max (with or without key=): fails exactly on an empty sequence,
+   otherwise returns the first position whose key is extremal; that position
+   is unique. *)
+Theorem minmax_correct :
+  forall is_max keys,
+    match minmax_impl is_max keys with
+    | Ok r => minmax_spec_ok is_max keys (Some r) = true
+    | Err => minmax_spec_ok is_max keys None = true
+    | _ => False
+    end.
+Proof. exact minmax_correct_lemma. Qed.
+
+Theorem minmax_unique :
+  forall is_max keys r r',
+    minmax_ok is_max keys r = true -> minmax_ok is_max keys r' = true -> r = r'.
+Proof. exact minmax_unique_lemma. Qed.
+
 (* s * n: n <= 0 (of any size) gives the empty sequence, the 2^30-element cap
    and counts beyond 32 bits fail, otherwise n copies *)
 Theorem repeat_correct :
@@ -173,3 +205,12 @@ Proof.
   - reflexivity.
   - eexists. split; [vm_compute; reflexivity|reflexivity].
 Qed.
+
+Example sort_premises_hold :
+  (* sorted(["bb","a","cc","d"], key=len, reverse=True) = ["bb","cc","a","d"] *)
+  sorted_impl true [2; 1; 2; 1] = [0; 2; 1; 3]%nat /\
+  sorted_ok true [2; 1; 2; 1] [0; 2; 1; 3]%nat = true /\
+  sorted_ok true [2; 1; 2; 1] [2; 0; 3; 1]%nat = false /\
+  minmax_impl true [1; 3; 3] = Ok 1%nat /\ minmax_ok true [1; 3; 3] 1%nat = true /\
+  minmax_ok true [1; 3; 3] 2%nat = false.
+Proof. vm_compute. repeat split. Qed.
